@@ -85,20 +85,61 @@ Definition track (h : uh) (cid : list N) (seq prio : N) (term : bool) : uh * boo
 
 (* DmxBuffer::Set(const DmxBuffer &other): Set(other.m_data, other.m_length) fails on a NULL block *)
 Definition buf_copy (b other : dbuf) : dbuf := match other with None => b | Some l => buf_set l end.
-Fixpoint max_zip (a b : list N) : list N :=
-  match a, b with x :: a', y :: b' => N.max x y :: max_zip a' b' | _, _ => [] end.
-(* DmxBuffer::HTPMerge(other) *)
-Definition htp_merge (b other : dbuf) : dbuf :=
-  let l := match b with None => [] | Some l => l end in
-  let o := match other with None => [] | Some o => take DMX_UNIVERSE_SIZE o end in
-  let m := N.min (len l) (len o) in
-  Some (max_zip l o ++ (if len l <? len o then drop m o else drop m l)).
-
 Definition merge_sources (h : uh) : uh * bool :=
   match u_srcs h with
   | [] => (mk_uh (u_uni h) (buf_reset (u_buf h)) (u_ap h) (u_srcs h), false)
   | [s] => (mk_uh (u_uni h) (buf_copy (u_buf h) (s_buf s)) (u_ap h) (u_srcs h), true)
   | l => (mk_uh (u_uni h) (fold_left (fun b s => htp_merge b (s_buf s)) l (buf_reset (u_buf h))) (u_ap h) (u_srcs h), true)
+  end.
+
+(* ---------------------------------------------------------------- E131Node::NewDiscoveryPage / TrackedSource::NewPage
+   (libs/acn/E131Node.cpp, enable_draft_discovery): what the node remembers about the controllers it has heard
+   universe-discovery pages from; E131Node::GetKnownControllers() is an output of the node.  It is a function of
+   the discovery callbacks (EvSrc name, EvPage cid page last universes) in order. *)
+Record tsrc := mk_tsrc { t_cid : list N; t_name : list N; t_unis : list N; t_total : N; t_pages : list N; t_new : list N }.
+(* std::set insert: ascending, no duplicates *)
+Fixpoint set_ins (x : N) (l : list N) : list N :=
+  match l with
+  | [] => [x]
+  | y :: r => if x <? y then x :: l else if x =? y then l else y :: set_ins x r
+  end.
+(* uint8_t expected_page = 0; for each received page p, ascending: if p != expected_page return; expected_page++ (8 bit) *)
+Fixpoint pages_expected (l : list N) (e : N) : option N :=
+  match l with [] => Some e | p :: r => if p =? e then pages_expected r (u8 (e + 1)) else None end.
+(* NewPage(page_number, last_page, sequence_number = 0, rx_universes); current_sequence_number stays 0 *)
+Definition new_page (s : tsrc) (page last : N) (unis : list N) : tsrc :=
+  let '(pages0, new0) := if negb (t_total s =? last) then ([], []) else (t_pages s, t_new s) in
+  let pages := set_ins page pages0 in
+  let new := fold_left (fun acc u => set_ins u acc) unis new0 in
+  match pages_expected pages 0 with
+  | Some e => if e =? last + 1 then mk_tsrc (t_cid s) (t_name s) new 0 [] []
+              else mk_tsrc (t_cid s) (t_name s) (t_unis s) last pages new
+  | None => mk_tsrc (t_cid s) (t_name s) (t_unis s) last pages new
+  end.
+Fixpoint list_ltb (a b : list N) : bool :=
+  match a, b with
+  | [], [] => false | [], _ => true | _, [] => false
+  | x :: a', y :: b' => if x <? y then true else if y <? x then false else list_ltb a' b'
+  end.
+Fixpoint list_eqb0 (a b : list N) : bool :=
+  match a, b with [], [] => true | x :: a', y :: b' => (x =? y) && list_eqb0 a' b' | _, _ => false end.
+(* m_discovered_sources: std::map keyed by CID *)
+Fixpoint tracked_page (ts : list tsrc) (cid name : list N) (page last : N) (unis : list N) : list tsrc :=
+  match ts with
+  | [] => [new_page (mk_tsrc cid name [] 0 [] []) page last unis]
+  | s :: r =>
+    if list_eqb0 (t_cid s) cid then new_page (mk_tsrc cid name (t_unis s) (t_total s) (t_pages s) (t_new s)) page last unis :: r
+    else if list_ltb cid (t_cid s) then new_page (mk_tsrc cid name [] 0 [] []) page last unis :: ts
+    else s :: tracked_page r cid name page last unis
+  end.
+
+(* the callbacks of one datagram, oldest first: a page callback is preceded by its EvSrc *)
+Fixpoint track_events (ts : list tsrc) (name : list N) (evs : list event) : list tsrc :=
+  match evs with
+  | [] => ts
+  | EvSrc nm :: r => track_events ts nm r
+  | EvPage cid page last us :: r => track_events (tracked_page ts cid name page last us) name r
+  | _ :: r => track_events ts name r
   end.
 
 (* ---------------------------------------------------------------- headers *)
@@ -594,3 +635,45 @@ Qed.
 (* for the capacity of the real receive buffer *)
 Lemma acn_bounded ign n hs : n <= ACN_MAX_DATAGRAM -> bounded n (acn_handle ign n hs).
 Proof. intros Hn. apply acn_bounded_any. unfold ACN_MAX_DATAGRAM in Hn. lia. Qed.
+
+(* ---------------------------------------------------------------- DecodeAddress, every size and type
+   (libs/acn/DMPAddress.cpp) with the proposed, unapplied fix fixes-optional-not-applied/03 (the NON_RANGE cases copy
+   one field, not three); identical to the code as it is for every RANGE type and for one-byte addresses, in
+   particular for TWO_BYTES / RANGE_EQUAL, the only combination the receive path reaches and the check exercises.  data = buffer + 0,
+   *length = n on entry.  Result: (start, increment, number) or NULL, and *length on return. *)
+Definition dmp_unit (size : N) : N :=
+  if size =? DMP_ONE_BYTES then 1 else if size =? DMP_TWO_BYTES then 2 else if size =? DMP_FOUR_BYTES then 4 else 0.
+Definition rd_field {A} (u off : N) (k : N -> prog A) : prog A :=
+  if u =? 1 then Read off k else if u =? 2 then rd16be off k else rd32be off k.
+Definition decode_address (size typ n : N) : prog (option (N * N * N) * N) :=
+  let u := dmp_unit size in
+  let byte_count := (if typ =? DMP_NON_RANGE then 1 else 3) * u in
+  if (size =? DMP_RES_BYTES) || (n <? byte_count) then Ret (None, 0)
+  else if u =? 0 then Ret (None, byte_count)
+  else if typ =? DMP_NON_RANGE then rd_field u 0 (fun a => Ret (Some (a, 0, 1), byte_count))
+  else rd_field u 0 (fun a => rd_field u u (fun b => rd_field u (2 * u) (fun c => Ret (Some (a, b, c), byte_count)))).
+
+Lemma rd_field_bounded {A} n u off (k : N -> prog A) :
+  (u = 1 \/ u = 2 \/ u = 4) -> off + u <= n -> (forall v, bounded n (k v)) -> bounded n (rd_field u off k).
+Proof.
+  intros Hu Ho Hk. unfold rd_field. destruct Hu as [H1 | [H1 | H1]]; rewrite H1; cbn [N.eqb Pos.eqb].
+  - apply bRead; [lia|auto].
+  - apply bounded_rd16be; [lia|auto].
+  - apply bounded_rd32be; [lia|auto].
+Qed.
+Lemma decode_address_bounded size typ n : bounded n (decode_address size typ n).
+Proof.
+  unfold decode_address. cbv zeta.
+  assert (Hu : dmp_unit size = 0 \/ dmp_unit size = 1 \/ dmp_unit size = 2 \/ dmp_unit size = 4).
+  { unfold dmp_unit. destruct (size =? DMP_ONE_BYTES); [auto|]. destruct (size =? DMP_TWO_BYTES); [auto|].
+    destruct (size =? DMP_FOUR_BYTES); auto. }
+  destruct ((size =? DMP_RES_BYTES) || (n <? (if typ =? DMP_NON_RANGE then 1 else 3) * dmp_unit size)) eqn:E; [constructor|].
+  apply orb_false_iff in E. destruct E as [_ E]. apply N.ltb_ge in E.
+  destruct (dmp_unit size =? 0) eqn:E0; [constructor|]. apply N.eqb_neq in E0.
+  assert (Hu' : dmp_unit size = 1 \/ dmp_unit size = 2 \/ dmp_unit size = 4) by (destruct Hu as [H|H]; [contradiction|exact H]).
+  destruct (typ =? DMP_NON_RANGE).
+  - apply rd_field_bounded; [assumption|lia|intros; constructor].
+  - apply rd_field_bounded; [assumption|lia|intros a].
+    apply rd_field_bounded; [assumption|lia|intros b].
+    apply rd_field_bounded; [assumption|lia|intros c]. constructor.
+Qed.
